@@ -1,6 +1,6 @@
 (* C17 -- myosin quantification is a normalised, linear window statistic of the image.  Statements only.
-   PARTIAL: window shape, distinctness of the band pixels, 'average' normalisation and order are proved; linearity in the image
-   (median scaling) and the polyline length are evaluated by harness/props/c17.py. *)
+   Proved: window shape, distinctness of the band pixels, linearity of the integrated intensity, positive homogeneity of the window median
+   statistic, uniform images, 'average' normalisation and order.  PARTIAL: the polyline length (sqrt) and PIL's pixel access are oracles. *)
 From Coq Require Import ZArith QArith List Bool.
 From Forsys Require Import Model.Myosin Proofs.MyosinProofs.
 Import ListNotations.
@@ -17,6 +17,20 @@ Proof. exact average_normalisation_mean_one. Qed.
 Theorem C17_stored_in_order : forall vals : list Q, length (normalise_average vals) = length vals.
 Proof. exact stored_in_order. Qed.
 
+(* intensities scale linearly with the image: the integrated intensity is linear, the window median is positively homogeneous *)
+Theorem C17_integrated_scale : forall (s : Q) img band len,
+  (integrated (fun x y => s * img x y) band len == s * integrated img band len)%Q.
+Proof. exact integrated_scale. Qed.
+Theorem C17_integrated_add : forall img1 img2 band len,
+  (integrated (fun x y => img1 x y + img2 x y) band len == integrated img1 band len + integrated img2 band len)%Q.
+Proof. exact integrated_add. Qed.
+Theorem C17_non_integrated_scale : forall (s : Q) img layers pixels, (0 < s)%Q ->
+  (non_integrated (fun x y => s * img x y) layers pixels == s * non_integrated img layers pixels)%Q.
+Proof. exact non_integrated_scale. Qed.
+(* a uniformly bright image gives every interface the brightness itself *)
+Theorem C17_non_integrated_uniform : forall (c : Q) layers pixels, pixels <> [] ->
+  (non_integrated (fun _ _ => c) layers pixels == c)%Q.
+Proof. exact non_integrated_uniform. Qed.
 Example C17_window_example : layer_elements 5 7 1 = [(4, 6); (4, 7); (4, 8); (5, 6); (5, 7); (5, 8); (6, 6); (6, 7); (6, 8)]%Z.
 Proof. vm_compute. reflexivity. Qed.
 Example C17_median_example : Qeq_bool (median [3; 9; 1; 7; 5]%Q) 5 = true.
@@ -26,3 +40,7 @@ Print Assumptions C17_window_is_square.
 Print Assumptions C17_band_pixels_distinct.
 Print Assumptions C17_average_normalisation_mean_one.
 Print Assumptions C17_stored_in_order.
+Print Assumptions C17_integrated_scale.
+Print Assumptions C17_integrated_add.
+Print Assumptions C17_non_integrated_scale.
+Print Assumptions C17_non_integrated_uniform.
